@@ -15,9 +15,9 @@ func newSchemas(tt *catalog.UserTypes) ComponentsSchemas {
 	ss := make(ComponentsSchemas, tt.Len())
 	_ = tt.Each(func(name string, ut *catalog.UserType) error {
 		if ut.Schema.Notation() == notation.SchemaNotationEmpty {
-			// JSight's pseudo-notation empty means the absence of a content, it
-			// cannot be represented by OA's Schema Object. Such a type cannot be
-			// referenced from other schemas, so it is safe to omit it.
+			// JSight's pseudo-notation empty means the absence of a content: the
+			// component is a schema which does not match any value.
+			ss[typeNameToSchemaName(name)] = &schemaObjectEmpty{Description: ut.Annotation}
 			return nil
 		}
 
